@@ -108,7 +108,10 @@ class Maker:
             # with the new values
             o = self.cls(args[0] + 3, min(0.9, args[1] / 2 + 0.05))
             o.get_impulse_response(7)
-            o.order, o.peak = args
+            try:
+                o.order, o.peak = args
+            except AttributeError:   # parameters made read-only: build it the ordinary way
+                return self.cls(*args)
             return o
         if route == "@subclass":
             # a user's subclass that sets the documented attributes itself after the base constructor ran
